@@ -215,7 +215,15 @@ class PathCtx:
             return "no"
         return "yes" if r == "sat" else "maybe"
 
-    def z3_feasible(self, timeout_ms=20000):
+    def z3_feasible(self, timeout_ms=4000):
+        # one query per context: the answer for a path does not change (new atoms only add definitions)
+        if getattr(self, "_z3res", None) is not None:
+            return self._z3res[0], self._z3res[1], 0.0
+        r, model, dt = self._z3_feasible(timeout_ms)
+        self._z3res = (r, model)
+        return r, model, dt
+
+    def _z3_feasible(self, timeout_ms):
         z = smt.Z3Ctx(self.alg, timeout_ms)
         dec = z.decisions(self.path)          # first: converting the decisions may create atoms
         extra = self.extra_facts_z3(z)
@@ -432,9 +440,13 @@ class PathCtx:
                 return
         samples = self.samples()
         worst = None
-        for vals in samples:
+        for si, vals in enumerate(samples):
             try:
-                gv = numeval.gen_values(alg, vals)
+                ck = (si, alg.pool_used)
+                cache = self.__dict__.setdefault("_gv_cache", {})
+                if ck not in cache:
+                    cache[ck] = numeval.gen_values(alg, vals)
+                gv = cache[ck]
                 r = numeval.poly_value(alg, res, gv)
             except (ZeroDivisionError, ValueError, TypeError):
                 continue
